@@ -205,9 +205,9 @@ def hostile(run, tier):
             variants.append((nm, meta, None, [nm]))
     # every option that changes which names become path components: all tags of an operation (not only the first), with the
     # hostile name in a secondary position, and operation / tag names that only differ from a benign one
-    for nm in names[:4] + [names[-1]]:
+    for nm in names[:4] + [names[-1], "../../../escaped_rel", "../../../../escaped_deep/x"]:
         for cfg in ({"generate_all_tags": True}, {"generate_all_tags": True, "use_path_prefixes_for_title_model_names": False}):
-            variants.append((nm, "none" if tier == "quick" else "poetry", cfg, ["pets", nm, "/abs/" + nm.strip("/"), "admin"]))
+            variants.append((nm, "none" if tier == "quick" else "poetry", cfg, ["pets", nm, "@ROOT@/abs_escape", "admin"]))
     for nm, meta, cfg, tags in variants:
         if True:
             doc = impl.base_doc(info={"title": nm, "version": "1"},
@@ -216,11 +216,25 @@ def hostile(run, tier):
                                        "/q": {"get": {"operationId": "benign", "tags": list(reversed(tags)), "responses": {"200": {"description": "ok"}}}}})
             root = Path(tempfile.mkdtemp(prefix="opc_hh_"))
             try:
+                tags = [t.replace("@ROOT@", str(root)) for t in tags]
+                for pth in ("/p", "/q"):
+                    doc["paths"][pth]["get"]["tags"] = tags if pth == "/p" else list(reversed(tags))
                 (root / "sentinel.txt").write_text("S")
                 cwd = root / "cwd"
                 cwd.mkdir()
                 # (a) explicit output path
                 g = impl.Gen(doc, meta=meta, root=root, cfg=cfg)
+                # the tag directories under api/ are exactly the sanitised tags the options select (independent expectation)
+                from openapi_python_client import utils as _u
+                sel = tags if (cfg or {}).get("generate_all_tags") else tags[:1]
+                sel_q = list(reversed(tags)) if (cfg or {}).get("generate_all_tags") else list(reversed(tags))[:1]
+                want_dirs = {str(_u.PythonIdentifier(t, "tag")) for t in sel + sel_q}
+                pk = root / "out" if meta == "none" else next((p for p in (root / "out").iterdir() if p.is_dir() and (p / "api").exists()), root / "out") if (root / "out").exists() else root / "out"
+                if (pk / "api").exists():
+                    got_dirs = {p.name for p in (pk / "api").iterdir() if p.is_dir()}
+                    if got_dirs != want_dirs:
+                        run.violation("oracle", {"hostile_name": nm, "meta": meta, "cfg": cfg, "tags": tags, "note": "tag packages under api/ are not exactly the sanitised selected tags",
+                                                 "got": sorted(got_dirs), "want": sorted(want_dirs)})
                 case = {"hostile_name": nm, "meta": meta, "cfg": cfg, "tags": tags}
                 run.note_case(case, kind="hostile-name")
                 listing = sorted(str(p.relative_to(root)) for p in root.rglob("*") if p.is_file())
